@@ -26,7 +26,8 @@ def main():
     args = [a for a in sys.argv[1:] if not a.startswith("--")]
     all_checks = "--all-checks" in sys.argv
     compact = "--compact" in sys.argv
-    seeds = sorted(os.listdir(os.path.join(VERIF, "seeded")))
+    seeds = sorted(x for x in os.listdir(os.path.join(VERIF, "seeded"))
+                   if os.path.isdir(os.path.join(VERIF, "seeded", x)))
     if args:
         seeds = [s for s in seeds if s in args]
     man = json.load(open(os.path.join(VERIF, "MANIFEST.json")))
